@@ -1,6 +1,8 @@
 /-
   Driver for C06.  Case lines:
     `T <tree as S-expression> <hex source>`  → `ok <hex of the text the model printer yields>`
+    `L <hex source>`                          → `lines <n> <hex of the printed command lines>` | `syntax-error`
+                                                 (the model of `Parser::command_line` run until the end of input)
     `R <hex source>`                          → `total` (the model's only claim about an arbitrary input:
                                                  the parser ends with a tree or a syntax error)
   Second column (Spec): for `T` cases the printed text is read back by the model lexer/parser where
@@ -11,6 +13,7 @@ import YashModel.Syntax.Model
 import YashModel.Syntax.Sexp
 import YashModel.Syntax.Lexer
 import YashModel.Syntax.Spec
+import YashModel.Syntax.Structure
 open YashModel YashModel.Syntax YashModel.Proto
 
 /-- an escape unit in the notation of the tree S-expressions -/
@@ -34,8 +37,20 @@ def runEscape (h : String) : String :=
     | some (u, _) => s!"esc {showEscape u}\t-"
     | none => "esc-error\t-"
 
+/-- `L <hex source>`: `Parser::command_line` until the end of input (`parseScript`) -/
+def runLines (h : String) : String :=
+  match decChars h with
+  | none => "bad-case\t-"
+  | some cs =>
+    match parseScript cs with
+    | none => "syntax-error\t-"
+    | some ls =>
+      let text := List.intercalate ['\n'] (ls.map (printList false))
+      s!"lines {ls.length} {encChars text}\t-"
+
 def runLine (line : String) : String :=
   if line.startsWith "R " || line.startsWith "G " then "total\t-" else
+  if line.startsWith "L " then runLines (line.drop 2).trimAscii.toString else
   if line.startsWith "X " then runEscape (line.drop 2).trimAscii.toString else
   -- `E <Variant> <source>` / `EP …`: a recorded syntax-error class; the model has no error model and echoes it
   if line.startsWith "E " || line.startsWith "EP " then
